@@ -1,6 +1,6 @@
 (** Model of the control-request bookkeeping of internal/agent/agent.go
     (SendControlRequestWithData, handleControlRequest, handleControlResponse)
-    for property C39, following the code after fix commit 9611840.  Request
+    for property C39, following the code after fix commit 8564431.  Request
     ids are the agent's own counter 1,2,3,...; a forwarded request travels on
     under an id taken from the forwarding agent's own counter (the same one
     that numbers its own requests); [forwardedControl] maps that id to the
